@@ -112,6 +112,37 @@ def contains(r, atomvalue):
     return bool(want) and want <= all_atoms(r)
 
 
+def unresolved(*values):
+    """applications inside the values whose callee the evaluator could not resolve to anything callable: apply(None, ...), apply(idx(TABLE, 'key'), ...),
+    apply(call:lookup(...), ...).  A comparison that fails on such a value says nothing about the code: the rule reports it as not decided."""
+    out = []
+    for v in values:
+        if v is None or is_unknown(v) or isinstance(v, DictValue):
+            continue
+        if isinstance(v, tuple):
+            out.extend(unresolved(*v))
+            continue
+        for a in all_atoms(v):
+            d = F.atom_desc(a)
+            if d[0] != "fn" or d[1] != "apply" or not d[2] or isinstance(d[2][0], str):
+                continue
+            k = d[2][0]
+            f = F.Rat(F._poly_from_key(k[1]), F._poly_from_key(k[2]))
+            n = sym_of(f)
+            bad = n in ("None", "True", "False") or str_of(f) is not None or f.is_const()
+            if not bad and n is None:
+                # an element of an argument tuple (idx(args, 1)) is a function value the caller supplied; the result of a call or of a look-up by a string
+                # key is a selection the evaluator should have followed
+                for b in all_atoms(f):
+                    e = F.atom_desc(b)
+                    if e[0] == "fn" and (e[1].startswith("call:") or (e[1] == "idx" and len(e[2]) == 2 and not isinstance(e[2][1], str)
+                                                                       and str_of(F.Rat(F._poly_from_key(e[2][1][1]), F._poly_from_key(e[2][1][2]))) is not None)):
+                        bad = True
+            if bad:
+                out.append(repr(F.Rat(F.Poly.atom(a)))[:200])
+    return out
+
+
 def truth(v):
     """three-valued truth of a value: constants, None / True / False, string literals"""
     if v is None or is_unknown(v):
@@ -152,6 +183,23 @@ def _scalar_key(v):
     if n in ("None", "True", "False"):
         return ("n", n)
     return None
+
+
+class PyTuple(tuple):
+    """the value of a tuple / list *display* (`(a, b)`, `[a]`): `+` concatenates two of them; what passes through a call (np.array(...)) is a vector"""
+
+
+def pykey(v):
+    """value -> (True, Python key) when it is a string literal, an integer constant, None, True or False (a key of a literal table), else (False, None)"""
+    s = str_of(v)
+    if s is not None:
+        return True, s
+    k = _scalar_key(v)
+    if k is None:
+        return False, None
+    if k[0] == "c":
+        return (True, int(k[1])) if k[1].denominator == 1 else (False, None)
+    return True, {"None": None, "True": True, "False": False}[k[1]]
 
 
 def rows_of(v):
@@ -275,10 +323,15 @@ def array_call(node, ev):
     if d in ("np.ceil", "numpy.ceil", "math.ceil", "ceil") and len(node.args) == 1:
         a = ev.ev(node.args[0])
         return NotImplemented if is_unknown(a) or isinstance(a, tuple) else F.fn("ceil", need(a))
+    if d == "bool" and len(node.args) == 1 and not kw:
+        t = truth(ev.ev(node.args[0]))
+        return NotImplemented if t is None else (TRUE if t else FALSE)
     if d == "int" and len(node.args) == 1:
         a = ev.ev(node.args[0])
         if is_unknown(a) or isinstance(a, tuple):
             return NotImplemented
+        if sym_of(a) in ("True", "False"):
+            return F.const(1 if sym_of(a) == "True" else 0)
         u = unfn(a)
         return a if (u and u[0] == "ceil") else F.fn("int", need(a))
     # index vectors of a mask
@@ -302,8 +355,8 @@ def array_call(node, ev):
     if attr == "get" and not _is_np(d) and 1 <= len(node.args) <= 2 and not kw:
         base = ev.ev(node.func.value)
         if isinstance(base, DictValue):
-            k = str_of(ev.ev(node.args[0]))
-            if k is not None:
+            ok, k = pykey(ev.ev(node.args[0]))
+            if ok:
                 if k in base.d:
                     return base.d[k]
                 return ev.ev(node.args[1]) if len(node.args) == 2 else NONE
@@ -355,6 +408,47 @@ def array_subscript(node, ev):
     return NotImplemented
 
 
+def counted_while(st):
+    """name of the counter of a counted loop `while k < n:` (any comparison with the bare name on one side) whose body updates k exactly once, by
+    `k += c` / `k -= c` / `k = k + c` with a literal c, outside any nested loop or function; else None"""
+    t = st.test
+    if not (isinstance(t, ast.Compare) and len(t.ops) == 1 and isinstance(t.ops[0], (ast.Lt, ast.LtE, ast.Gt, ast.GtE, ast.NotEq))):
+        return None
+    for side in (t.left, t.comparators[0]):
+        if not isinstance(side, ast.Name):
+            continue
+        c = side.id
+        upd, other = [], []
+
+        def visit(stmts, nested):
+            for x in stmts:
+                if isinstance(x, (ast.FunctionDef, ast.AsyncFunctionDef, ast.ClassDef, ast.Lambda)):
+                    continue
+                if isinstance(x, ast.AugAssign) and isinstance(x.target, ast.Name) and x.target.id == c:
+                    (upd if isinstance(x.op, (ast.Add, ast.Sub)) and isinstance(x.value, ast.Constant) and not nested else other).append(x)
+                elif isinstance(x, ast.Assign) and any(isinstance(n, ast.Name) and n.id == c and isinstance(n.ctx, ast.Store) for tg in x.targets for n in ast.walk(tg)):
+                    v = x.value
+                    ok = len(x.targets) == 1 and isinstance(x.targets[0], ast.Name) and isinstance(v, ast.BinOp) and isinstance(v.op, (ast.Add, ast.Sub)) \
+                        and ((isinstance(v.left, ast.Name) and v.left.id == c and isinstance(v.right, ast.Constant))
+                             or (isinstance(v.op, ast.Add) and isinstance(v.right, ast.Name) and v.right.id == c and isinstance(v.left, ast.Constant)))
+                    (upd if ok and not nested else other).append(x)
+                elif isinstance(x, (ast.For, ast.AsyncFor)) and any(isinstance(n, ast.Name) and n.id == c for n in ast.walk(x.target)):
+                    other.append(x)
+                for n in ast.walk(x) if not isinstance(x, (ast.If, ast.For, ast.While, ast.With, ast.Try)) else ():
+                    if isinstance(n, ast.NamedExpr) and isinstance(n.target, ast.Name) and n.target.id == c:
+                        other.append(n)
+                for f in ("body", "orelse", "finalbody"):
+                    sub = getattr(x, f, None)
+                    if isinstance(sub, list):
+                        visit(sub, nested or isinstance(x, (ast.For, ast.While)))
+                for h in getattr(x, "handlers", []):
+                    visit(h.body, nested)
+        visit(st.body, False)
+        if len(upd) == 1 and not other and upd[0] in st.body:
+            return c
+    return None
+
+
 class Ev3(AutoEvaluator):
     hooks = ()                # call hooks tried in order before array_call
     sub_hooks = ()            # subscript hooks tried before array_subscript
@@ -366,23 +460,43 @@ class Ev3(AutoEvaluator):
         self.erase_T = True
         self.loop_once = True
         self.inplace = {}
+        if fn is not None:
+            # also `X[0], X[1] = a, b`, `for X[k] in ...`, `X[i]: float = v`: every subscript store on a bare name
+            for n in ast.walk(fn):
+                if isinstance(n, ast.Subscript) and isinstance(n.ctx, ast.Store) and isinstance(n.value, ast.Name):
+                    self.buffers.add(n.value.id)
+        self.bufmap = {}      # source name of a buffer of this function -> name of the array object it denotes (itself unless rebound / inlined)
+        self.foreign = set()  # names of array objects created in inlined callees (their stores are in self.cells, their creation in <init:name>)
+        self.fresh = [0]      # counter shared with the evaluators of inlined callees
+
+    def bname(self, name):
+        """name of the array object the buffer `name` of this function denotes"""
+        return self.bufmap.get(name, name)
+
+    def is_array_object(self, name):
+        """`name` (the symbol a value consists of) is an array / dictionary object filled by subscript stores recorded in this evaluation"""
+        return name is not None and (name in self.foreign or any(self.bname(b) == name for b in self.buffers))
 
     # ------------------------------------------------------------ names / buffers
     def _ev(self, node):
         if isinstance(node, ast.Name) and node.id in self.buffers:
-            return self.env.get("<cur:%s>" % node.id, F.sym(node.id))
+            b = self.bname(node.id)
+            return self.env.get("<cur:%s>" % b, F.sym(b))
         if isinstance(node, ast.Subscript):
             for h in tuple(self.sub_hooks) + (array_subscript,):
                 r = h(node, self)
                 if r is not NotImplemented:
                     return r
-            # a literal table looked up with a key that is a known string
+            # a literal table looked up with a key that is a known string; a tuple / list display indexed by a decided truth value
             if not (isinstance(node.value, ast.Name) and node.value.id in self.buffers):
                 base = self._ev(node.value)
+                if isinstance(base, tuple) and len(base) == 2 and not isinstance(node.slice, (ast.Slice, ast.Tuple, ast.Constant)):
+                    k = sym_of(self.ev(node.slice))
+                    if k in ("True", "False"):
+                        return base[1 if k == "True" else 0]
                 if isinstance(base, DictValue):
-                    k = self.ev(node.slice)
-                    s = str_of(k)
-                    if s is not None:
+                    ok, s = pykey(self.ev(node.slice))
+                    if ok:
                         return base.d[s] if s in base.d else Unknown(f"key {s!r} not in the literal table")
                     return Unknown("literal table looked up with an undetermined key")
         if isinstance(node, ast.Compare) and len(node.ops) == 1:
@@ -391,7 +505,34 @@ class Ev3(AutoEvaluator):
                 return TRUE if r else FALSE
         if isinstance(node, ast.Dict) and not node.keys:
             return DictValue({})
+        if isinstance(node, (ast.Tuple, ast.List)):
+            out = []
+            for e in node.elts:
+                if isinstance(e, ast.Starred):
+                    v = self.ev(e.value)
+                    if not isinstance(v, tuple):
+                        return Unknown("unpacking of a value that is not a tuple display")
+                    out.extend(v)
+                else:
+                    out.append(self.ev(e))
+            return PyTuple(out)
+        if isinstance(node, ast.BinOp) and isinstance(node.op, ast.Add) and self._display(node.left) and self._display(node.right):
+            a, b = self.ev(node.left), self.ev(node.right)
+            if isinstance(a, PyTuple) and isinstance(b, PyTuple):
+                return PyTuple(a + b)                 # (x,) + rest
         return super()._ev(node)
+
+    def _display(self, n):
+        """syntactically a tuple / list display, a local bound to one, or a sum of such"""
+        if isinstance(n, (ast.Tuple, ast.List)):
+            return True
+        if isinstance(n, ast.Name):
+            return n.id not in self.buffers and isinstance(self.env.get(n.id), PyTuple)
+        if isinstance(n, ast.BinOp) and isinstance(n.op, ast.Add):
+            return self._display(n.left) and self._display(n.right)
+        if isinstance(n, ast.IfExp):
+            return self._display(n.body) and self._display(n.orelse)
+        return False
 
     def compare(self, node):
         """truth of a comparison both sides of which are constants / string literals / None, else None"""
@@ -407,6 +548,11 @@ class Ev3(AutoEvaluator):
                     return r if isinstance(op, ast.In) else not r
             return None
         ka, kb = _scalar_key(a), _scalar_key(b)
+        if isinstance(op, (ast.Eq, ast.Is, ast.NotEq, ast.IsNot)):
+            # a tuple / list / dict display is not None, True or False
+            for x, k in ((a, kb), (b, ka)):
+                if isinstance(x, (tuple, DictValue)) and k is not None and k[0] == "n":
+                    return isinstance(op, (ast.NotEq, ast.IsNot))
         if ka is None or kb is None:
             return None
         if isinstance(op, (ast.Eq, ast.Is)):
@@ -464,6 +610,20 @@ class Ev3(AutoEvaluator):
         if isinstance(st, ast.For):
             self._for(st)
             return
+        if isinstance(st, ast.While) and not st.orelse:
+            ctr = counted_while(st)
+            if ctr is not None and ctr not in self.buffers and ctr not in self.pinned:
+                # `k = a; while k < n: ...; k += 1`: evaluated once for a generic iteration, like `for k in range(a, n)`
+                self.ev(st.test)
+                self.env[ctr] = F.sym(ctr)
+                self.run(st.body)
+                return
+        if isinstance(st, ast.Try):
+            # the path on which nothing is raised: body, else, finally (the handlers belong to the exceptional paths)
+            self.run(st.body)
+            self.run(st.orelse)
+            self.run(st.finalbody)
+            return
         if isinstance(st, ast.With):
             for it in st.items:
                 v = self.ev(it.context_expr)
@@ -479,12 +639,18 @@ class Ev3(AutoEvaluator):
             if c is False:
                 self.run(st.orelse)
                 return
+        if isinstance(st, ast.AugAssign) and isinstance(st.target, ast.Name) and isinstance(st.op, ast.Add) and st.target.id not in self.buffers \
+                and isinstance(self.env.get(st.target.id), PyTuple):
+            v = self.ev(st.value)
+            if isinstance(v, PyTuple):
+                self._assign(st.target, PyTuple(self.env[st.target.id] + v), st)      # result += (x,)
+                return
         if isinstance(st, ast.AugAssign) and isinstance(st.target, ast.Name):
             self.inplace[st.target.id] = self.inplace.get(st.target.id, 0) + 1
             # `h = d["k"]; h /= Q` on an array: an in-place update of the element of the container
             cur = self.env.get(st.target.id) if st.target.id not in self.buffers else None
             u = unfn(cur) if cur is not None and not is_unknown(cur) and not isinstance(cur, (tuple, DictValue)) else None
-            if u and u[0] == "idx" and len(u[1]) == 2 and not isinstance(u[1][0], str) and sym_of(u[1][0]) in self.buffers:
+            if u and u[0] == "idx" and len(u[1]) == 2 and not isinstance(u[1][0], str) and self.is_array_object(sym_of(u[1][0])):
                 super().stmt(st)
                 nv = self.env.get(st.target.id)
                 self.seq += 1
@@ -513,6 +679,22 @@ class Ev3(AutoEvaluator):
             for a in it.args:
                 self.ev(a)
             bind(t, F.sym(t.id))
+        elif d == "zip" and isinstance(t, (ast.Tuple, ast.List)) and len(t.elts) == len(it.args) and not it.keywords \
+                and all(isinstance(e, ast.Name) for e in t.elts):
+            # for k, x in zip(range(n), X): the elements with one common index - the counter itself when one of the sequences is a range
+            cnt = [e.id for e, a in zip(t.elts, it.args) if isinstance(a, ast.Call) and dotted(a.func) in ("range", "it.count", "itertools.count", "count")]
+            k = F.sym(cnt[0]) if cnt else F.sym("<k:%s>" % t.elts[0].id)
+            for e, a in zip(t.elts, it.args):
+                if isinstance(a, ast.Call) and dotted(a.func) in ("range", "it.count", "itertools.count", "count"):
+                    for x in a.args:
+                        self.ev(x)
+                    bind(e, F.sym(e.id) if e.id != (cnt[0] if cnt else None) else k)
+                    continue
+                arr = self.ev(a)
+                if is_unknown(arr) or isinstance(arr, (tuple, DictValue)):
+                    bind(e, F.sym(e.id))
+                else:
+                    bind(e, F.fn("idx", need(arr), k))
         elif isinstance(t, ast.Name) and isinstance(it, (ast.Name, ast.Attribute)):
             arr = self.ev(it)
             if is_unknown(arr) or isinstance(arr, (tuple, DictValue)):
@@ -538,11 +720,29 @@ class Ev3(AutoEvaluator):
                 self._assign(e, F.fn("idx", need(v), F.const(k)), st)
             return
         if isinstance(target, ast.Name) and target.id in self.buffers:
-            if not is_unknown(v) and not isinstance(v, (tuple, DictValue)) and depends(v, target.id):
-                self.env["<cur:%s>" % target.id] = v          # X = X.ravel() / X /= Q : the same array, transformed
+            b = self.bname(target.id)
+            other = sym_of(v)
+            if other is not None and other != b and self.is_array_object(other):
+                self.bufmap[target.id] = other                 # X = helper(...) / X = Y: the name now denotes that array object
+            elif not is_unknown(v) and not isinstance(v, (tuple, DictValue)) and depends(v, b):
+                self.env["<cur:%s>" % b] = v                   # X = X.ravel() / X /= Q : the same array, transformed
             else:
-                self.env.pop("<cur:%s>" % target.id, None)
-                self.env["<init:%s>" % target.id] = v
+                if b != target.id or any(self.bname(o) == b for o in self.buffers if o != target.id):
+                    # the name denoted an object shared with a callee or with another name: from here on it denotes a new one
+                    self.fresh[0] += 1
+                    b = "%s@%d" % (target.id, self.fresh[0])
+                    self.bufmap[target.id] = b
+                self.env.pop("<cur:%s>" % b, None)
+                self.env["<init:%s>" % b] = v
+            return
+        if isinstance(target, ast.Subscript) and isinstance(target.value, ast.Name) and target.value.id in self.buffers:
+            try:
+                ix = self._index_value(target.slice)
+            except Unsupported as e:
+                ix = Unknown(str(e))
+            self.seq += 1
+            self.cell_seq.append(self.seq)
+            self.cells.append((self.bname(target.value.id), ix, v, st))
             return
         if isinstance(target, ast.Subscript) and not (isinstance(target.value, ast.Name) and target.value.id in self.buffers) \
                 and isinstance(target.value, (ast.Subscript, ast.Attribute, ast.Name)):
@@ -560,6 +760,23 @@ class Ev3(AutoEvaluator):
 
     # ------------------------------------------------------------ calls
     def _call(self, node):
+        r = self._call3(node)
+        if isinstance(r, PyTuple) and not (isinstance(node.func, ast.Name) and node.func.id in ("tuple", "list") and "tuple" not in self.env):
+            return tuple(r)               # np.array((a, b)) is a vector, not a display
+        return r
+
+    def _call3(self, node):
+        if isinstance(node.func, ast.Name) and node.func.id in ("tuple", "list") and len(node.args) == 1 and not node.keywords and node.func.id not in self.env:
+            v = self.ev(node.args[0])
+            if isinstance(v, PyTuple):
+                return v
+        if isinstance(node.func, ast.Name) and node.func.id == "dict" and len(node.args) == 1 and not node.keywords and "dict" not in self.env \
+                and isinstance(node.args[0], ast.Call) and dotted(node.args[0].func) == "zip" and len(node.args[0].args) == 2 and "zip" not in self.env:
+            ks, vs = (self.ev(a) for a in node.args[0].args)          # dict(zip(KEYS, VALUES)) on two displays of literal keys / values
+            if isinstance(ks, tuple) and isinstance(vs, tuple) and len(ks) == len(vs):
+                keys = [pykey(k) for k in ks]
+                if all(ok for ok, _k in keys):
+                    return DictValue({k: v for (_ok, k), v in zip(keys, vs)})
         if isinstance(node.func, ast.Name) and node.func.id == "dict" and not node.args and node.keywords and all(k.arg is not None for k in node.keywords) \
                 and "dict" not in self.env:
             return DictValue({k.arg: self.ev(k.value) for k in node.keywords})
@@ -645,8 +862,27 @@ class Ev3(AutoEvaluator):
         sub.module_consts = self.module_consts
         sub.hooks, sub.sub_hooks, sub.raise_only, sub.explore_hook = self.hooks, self.sub_hooks, self.raise_only, self.explore_hook
         sub.loop_unroll, sub.loop_once, sub.forward_stores, sub.erase_T = self.loop_unroll, self.loop_once, self.forward_stores, self.erase_T
-        # a buffer parameter of the callee (filled by subscript stores) is the caller's array: keep its value, not the callee's spelling
         sub.seq = self.seq
+        sub.fresh = self.fresh
+        sub.foreign = set(self.foreign) | {self.bname(b) for b in self.buffers}
+        # the arrays the callee fills by subscript stores: a parameter is the caller's array object when the argument is one symbol (the stores are
+        # recorded under the caller's name, whatever the callee calls it), otherwise an object of its own whose current value is the argument;
+        # a local is a new object with a name no other evaluation of this or any other function uses
+        through = {}
+        for b in sorted(sub.buffers):
+            pv = env.get(b) if (b in params or b in kwonly) else None
+            cn = sym_of(pv) if pv is not None else None
+            if cn is not None and cn not in ("None", "True", "False") and str_of(pv) is None:
+                sub.bufmap[b] = cn
+                for k in ("<cur:%s>" % cn, "<init:%s>" % cn):
+                    if k in self.env:
+                        sub.env[k] = self.env[k]
+            else:
+                self.fresh[0] += 1
+                sub.bufmap[b] = "%s@%d" % (b, self.fresh[0])
+                if pv is not None and not is_unknown(pv) and not isinstance(pv, (tuple, DictValue)):
+                    sub.env["<cur:%s>" % sub.bufmap[b]] = pv
+                    through[sub.bufmap[b]] = pv
         vm = getattr(fn, "_vmod", None)
         if vm is not None and self.src is not None and hasattr(self.src, "funcs_consulted"):
             self.src.funcs_consulted.add(f"{vm.rel}:{getattr(fn, '_vqual', fn.name)}")      # evidence: helpers the rules followed
@@ -654,30 +890,28 @@ class Ev3(AutoEvaluator):
         self.calls.extend(sub.calls)
         self.call_seq.extend(sub.call_seq)
         for nm, ix, val, st in sub.cells:
-            pv = env.get(nm)
-            if nm in params and pv is not None and not is_unknown(pv) and not isinstance(pv, (tuple, DictValue)):
-                # a store into an array parameter: a store into the caller's array
-                cn = sym_of(pv)
-                if cn is not None and cn in self.buffers:
-                    self.cells.append((cn, ix, val, st))
-                else:
-                    self.deep.append((pv, ix, val, st))
-                    self.cells.append((nm, ix, val, st))
-            else:
-                self.cells.append((nm, ix, val, st))
+            self.cells.append((nm, ix, val, st))
+            if nm in through:
+                self.deep.append((through[nm], ix, val, st))       # a store into an element of a container of the caller
         self.cell_seq.extend(sub.cell_seq)
         self.deep.extend(sub.deep)
         self.seq = sub.seq
+        self.foreign |= {sub.bname(b) for b in sub.buffers} | sub.foreign
+        for k, v in sub.env.items():
+            if k.startswith(("<init:", "<cur:")) and k[k.index(":") + 1:-1] not in through:
+                self.env[k] = v
         # x += v on an array parameter updates the caller's array
         plain = {t.id for n in ast.walk(fn) if isinstance(n, ast.Assign) for t in n.targets if isinstance(t, ast.Name)}
         for p_, x in list(zip(params, node.args)) + [(k.arg, k.value) for k in node.keywords]:
-            if sub.inplace.get(p_) and p_ not in plain and p_ in sub.env and isinstance(x, ast.Name) and x.id not in self.pinned:
+            if sub.inplace.get(p_) and p_ not in plain and p_ in sub.env and isinstance(x, ast.Name) and x.id not in self.pinned and p_ not in sub.buffers:
                 if x.id in self.buffers:
-                    self.env["<cur:%s>" % x.id] = sub.env[p_]
+                    self.env["<cur:%s>" % self.bname(x.id)] = sub.env[p_]
                 else:
                     self.env[x.id] = sub.env[p_]
                 self.inplace[x.id] = self.inplace.get(x.id, 0) + 1
         if not sub.returns:
+            if any(isinstance(n, ast.Return) and n.value is not None for n in ast.walk(fn)):
+                return Unknown(f"no return reached in inlined {name}")       # a construct the evaluator skipped holds the return
             return NONE
         if len(sub.returns) != 1:
             return Unknown(f"several returns in inlined {name}")
@@ -685,6 +919,57 @@ class Ev3(AutoEvaluator):
         if v is None:
             return NONE
         return v
+
+
+_CONST_NODES = (ast.Constant, ast.Tuple, ast.List, ast.Dict, ast.Set, ast.Name, ast.UnaryOp, ast.unaryop, ast.BinOp, ast.operator, ast.Attribute, ast.Subscript,
+                ast.Slice, ast.Call, ast.keyword, ast.JoinedStr, ast.FormattedValue, ast.expr_context)
+
+
+def module_consts3(ctx, rel):
+    """{name: value node} for the module-level names of `rel` bound exactly once, at top level, to an expression without control flow (literals, names,
+    displays, arithmetic and calls such as `dict(abs=_absmeth, ...)`, `np.array((...))`, `"...".format(...)`) and never declared `global` in a function:
+    constants, messages and lookup tables that a clean-up may have moved out of a function.  A name is folded where it is read (a local or a parameter
+    of the same name wins); what the evaluator cannot lower stays the opaque application it is."""
+    m = ctx.src.mod(rel)
+    globs = {g for n in ast.walk(m.tree) if isinstance(n, ast.Global) for g in n.names}
+    count, val = {}, {}
+    # every binding at module scope counts (also those under a top-level `if` / `try` / `with` / loop); function and class bodies do not
+    todo = list(m.tree.body)
+    while todo:
+        st = todo.pop(0)
+        if isinstance(st, (ast.FunctionDef, ast.AsyncFunctionDef, ast.ClassDef)):
+            count[st.name] = count.get(st.name, 0) + 1
+            continue
+        if isinstance(st, (ast.Import, ast.ImportFrom)):
+            for a in st.names:
+                nm = (a.asname or a.name).split(".")[0]
+                count[nm] = count.get(nm, 0) + 1
+            continue
+        nested = [x for f in ("body", "orelse", "finalbody") for x in getattr(st, f, [])] + [x for h in getattr(st, "handlers", []) for x in h.body]
+        if nested:
+            for x in nested:
+                for n in ast.walk(x):
+                    if isinstance(n, ast.Name) and isinstance(n.ctx, ast.Store):
+                        count[n.id] = count.get(n.id, 0) + 2          # bound conditionally: never folded
+                    if isinstance(n, (ast.FunctionDef, ast.ClassDef)):
+                        count[n.name] = count.get(n.name, 0) + 2
+            for n in ast.walk(st):
+                if isinstance(n, ast.Name) and isinstance(n.ctx, ast.Store):
+                    count[n.id] = count.get(n.id, 0) + 2
+            continue
+        tg = []
+        if isinstance(st, ast.Assign):
+            tg = st.targets
+        elif isinstance(st, (ast.AnnAssign, ast.AugAssign)):
+            tg = [st.target]
+        for t in tg:
+            for x in ast.walk(t):
+                if isinstance(x, ast.Name):
+                    count[x.id] = count.get(x.id, 0) + (2 if isinstance(st, ast.AugAssign) else 1)
+        if isinstance(st, (ast.Assign, ast.AnnAssign)) and st.value is not None and len(tg) == 1 and isinstance(tg[0], ast.Name):
+            if all(isinstance(x, _CONST_NODES) for x in ast.walk(st.value)):
+                val[tg[0].id] = st.value
+    return {k: v for k, v in val.items() if count.get(k) == 1 and k not in globs}
 
 
 def raise_only_tests(funcs):
@@ -717,7 +1002,7 @@ class Sem3:
         cache = ctx.__dict__.setdefault("_c03_tables", {})
         if rel not in cache:
             table = module_funcs(ctx, rel)
-            cache[rel] = (table, module_consts(ctx, rel), raise_only_tests(list(table.values())))
+            cache[rel] = (table, module_consts3(ctx, rel), raise_only_tests(list(table.values())))
         table, consts, ro = cache[rel]
         self.ev.inline = {k: v for k, v in table.items() if v is not fn and k not in exclude} if inline else None
         self.ev.module_consts = consts
